@@ -5,7 +5,7 @@ import aescampaign
 
 def run(tier):
     ev, vd = Evidence("C14", tier), Verdict("C14", tier)
-    aescampaign.run("C14", tier, ev, vd, only=("keyexp", "cbc", "xts", "gcminit"))
+    aescampaign.run("C14", tier, ev, vd, only=("keyexp", "cbc", "xts", "gcminit", "gcmdata", "gcmstream"))
     ev.cov["outside_bounds"] += ["GCM update / finalize / one-shot and precompute entry points (not yet executed by the engine)", "lengths outside the campaign's list", "general-purpose registers"]
     ev.assume("a 128-bit lane of zmm0-31 or a 16-byte window of stack written below the entry rsp is a residue when z3 proves it equal to a secret (raw key words, any round key of either schedule, E_K2(tweak), any 16-byte block of the GCM key data) for every key; prefiltered by random simulation",
               "the objects are assembled with the default flags of make.inc (-DSAFE_DATA)")
